@@ -950,8 +950,8 @@ theorem nest_demo :
       { query := [("p[o][q][w][0]".toList, [['1']]), ("p[o][q]".toList, [['x']])] } = .parse := by
   decide
 
-/-- on two-level schemas the recursive model and the two-level model of Style.lean (`Leaf.deep`, used by every other
-theorem and by the generator's D1/D2 streams) give the same verdicts: the requests of `deep_nested_examples`, both models -/
+/-- on two-level schemas the recursive model and the two-level model of Style.lean (`Leaf.deep`, which the other theorems
+and the generator's D1/D2 streams use) give the same verdicts: the requests of `deep_nested_examples`, both models -/
 theorem nest_agrees_with_deep_examples :
     let np : NParam := ⟨['p'], false, false,
       [(['a'], .prim { t := .integer }), (['l'], .arr (.prim { t := .integer })),
